@@ -51,6 +51,8 @@ def run_and_audit(ctx, iso3, options, title):
     if not r["ok"]:
         ctx.abort("%s@%s" % (r["exc_type"], r["exc_frame"]))
         ctx.event("aborted")
+        if len(ctx.notes) < 3:
+            ctx.notes.append("run did not complete (counted as aborted, judged by C16): %s %r: %s@%s" % (iso3, options, r["exc_type"], r["exc_frame"]))
         return None
     nt = False
     for i, cap in enumerate(r["cap"].opt):
@@ -79,6 +81,7 @@ def shard(ctx):
         iso3, options = case
         run_and_audit(ctx, iso3, options, "c01_%d_%d" % (ctx.shard, ctx.evaluations))
     drive(ctx, case_strategy(), body, n, shrink=False, tag="runs")
+    model.run_fixed(ctx, model.extreme_cases(), lambda iso, o, k: (ctx.count(), run_and_audit(ctx, iso, o, "c01x_%s" % iso)))
     if thorough:
         isos = model.iso3_list()
         for i, iso in enumerate(isos):
